@@ -118,13 +118,24 @@ def check_c15(case, stats):
   cps = O.scml_reference(dd, beta, gamma, case['batch_size'], case['max_iter'], case['output_iter'], case['seed'])
   best = min(c[1] for c in cps)
   ok = False
+  noise = 0.0
+  if case.get('offset'):
+    # noise-floor control for data far from the origin: the same documented quantity with the points projected
+    # BEFORE the differences are taken (rounding eps * offset per projection instead of eps * spread); how far the
+    # reference weights move under that rounding bounds what any double-precision implementation can reproduce
+    # (cancellation inside d_b(a,b) - d_b(a,c) can amplify it well beyond eps * offset / spread)
+    Pj = np.asarray(T, dtype=float).reshape(-1, d).dot(np.asarray(basis, dtype=float).T).reshape(len(T), 3, -1)
+    dd2 = (Pj[:, 0] - Pj[:, 1]) ** 2 - (Pj[:, 0] - Pj[:, 2]) ** 2
+    cps2 = O.scml_reference(dd2, beta, gamma, case['batch_size'], case['max_iter'], case['output_iter'], case['seed'])
+    for (_, _, wa), (_, _, wb) in zip(cps, cps2):
+      noise = max(noise, float(np.abs(wa - wb).max()) / max(float(np.abs(wa).max()), 1e-300))
   for it, obj, wr in cps:
     if obj <= best + 1e-12 * max(1.0, abs(best)):
       # far from the origin the library's projections (X B^T, then differences) carry eps * offset/spread of relative
       # error (measured worst case 3e-9 at 1e4, 2e-8 at 1e5 on the unchanged tree; an expanded-squares variant gives
       # 7e-6 and 3e-3): the tolerance grows linearly with that ratio
       # (the ratio that matters is offset / smallest spread: anisotropic data - desc cond - is that much thinner)
-      wtol = 1e-8 * (1.0 + case.get('offset', 0.0) * case['desc'].get('cond', 1) / 1e3)
+      wtol = 1e-8 * (1.0 + case.get('offset', 0.0) * case['desc'].get('cond', 1) / 1e3) + 10 * noise
       if np.abs(wr - w).max() <= wtol * max(np.abs(wr).max(), 1e-300) + 1e-300:
         ok = True
   if not ok:
